@@ -46,6 +46,13 @@ def Rule.id (r : Rule) : String :=
   | .error r => .error r
   | .ok _ => b
 
+instance : DecidableEq (Except Rule Unit)
+  | .ok (), .ok () => isTrue rfl
+  | .error a, .error b =>
+    if h : a = b then isTrue (h ▸ rfl) else isFalse (by intro e; cases e; exact h rfl)
+  | .ok _, .error _ => isFalse (by intro e; cases e)
+  | .error _, .ok _ => isFalse (by intro e; cases e)
+
 /-- `NamespaceIndex`: the map from trimmed namespace to definition (keys are unique by
 construction), plus the `VerificationMode`. -/
 structure Env where
